@@ -47,8 +47,12 @@ class MUid(object):
     def selfsigs(self):
         return [s for s in self.sigs if s.kind == 'self']
 
-    def latest_self(self):
-        ss = self.selfsigs()
+    def own_sigs(self, owner):
+        """everything the key itself issued on this identity: certifications and certification revocations"""
+        return [s for s in self.sigs if s.kind == 'self' or (s.kind == 'rev' and s.issuer_key == owner)]
+
+    def latest_self(self, owner=None):
+        ss = self.own_sigs(owner) if owner is not None else self.selfsigs()
         return max(ss, key=SigRec.rank) if ss else None
 
 
